@@ -4,12 +4,12 @@
    crate matches `&str` haystacks code point by code point (Unicode mode is the default).
 
    Fragment (always anchored on both sides, which is what glob_to_regex produces):
-       regex ::= '^' atom* '$'
+       regex ::= ['(?s)'] '^' atom* '$'      (?s) = flag "dot matches new line" for the whole regex
        atom  ::= c            any character that is not a regex meta character: matches itself
                | '\' m        an escaped meta character: matches m
-               | '.'          any character except '\n'  (regex crate default, flag `s` off)
-               | '.*'         any sequence of characters other than '\n' (greedy or not is
-                              irrelevant for `is_match`)
+               | '.'          any character except '\n'; ANY character under (?s)
+               | '.*'         any sequence of such characters (greedy or not is irrelevant
+                              for `is_match`)
                | '[^/]*'      any sequence of characters other than '/' (a negated class DOES
                               contain '\n')
    Everything outside this fragment is rejected by `parse` (None): the model makes no claim
@@ -20,6 +20,7 @@ Open Scope N_scope.
 
 Definition c_nl : N := 10.      (* '\n' *)
 Definition c_dollar : N := 36.  (* '$' *)
+Definition c_s : N := 115.      (* 's' *)
 Definition c_lparen : N := 40.  (* '(' *)
 Definition c_rparen : N := 41.  (* ')' *)
 Definition c_star : N := 42.    (* '*' *)
@@ -50,14 +51,14 @@ Inductive atom : Type :=
 | AAnyStar        (* .*    *)
 | ASegStar.       (* [^/]* *)
 
-(* an anchored regex ^a1 a2 ... an$ *)
-Definition regex : Type := list atom.
+(* an anchored regex ^a1 a2 ... an$, with the value of the flag `s` (dot matches new line) *)
+Definition regex : Type := (bool * list atom)%type.
 
 Definition ocons {A} (a : A) (o : option (list A)) : option (list A) :=
   match o with Some l => Some (a :: l) | None => None end.
 
 (* text after the leading '^'; must end with the closing '$' *)
-Fixpoint parse_body (s : list N) : option regex :=
+Fixpoint parse_body (s : list N) : option (list atom) :=
   match s with
   | [] => None
   | c :: s1 =>
@@ -84,10 +85,23 @@ Fixpoint parse_body (s : list N) : option regex :=
       else ocons (ALit c) (parse_body s1)
   end.
 
-Definition parse (s : list N) : option regex :=
+Definition parse_anchored (s : list N) : option (list atom) :=
   match s with
   | c :: s1 => if c =? c_caret then parse_body s1 else None
   | [] => None
+  end.
+
+Definition with_flag (f : bool) (o : option (list atom)) : option regex :=
+  match o with Some l => Some (f, l) | None => None end.
+
+(* an optional leading flag group `(?s)` *)
+Definition parse (s : list N) : option regex :=
+  match s with
+  | a :: b :: c :: d :: rest =>
+      if (a =? c_lparen) && (b =? c_quest) && (c =? c_s) && (d =? c_rparen)
+      then with_flag true (parse_anchored rest)
+      else with_flag false (parse_anchored s)
+  | _ => with_flag false (parse_anchored s)
   end.
 
 (* `k` holds of some suffix of `s` reached by skipping characters that all satisfy `ok`
@@ -98,16 +112,21 @@ Fixpoint star_by (ok : N -> bool) (k : list N -> bool) (s : list N) : bool :=
 Definition not_nl (x : N) : bool := negb (x =? c_nl).
 Definition not_slash (x : N) : bool := negb (x =? c_slash).
 
+(* what `.` accepts: everything under (?s), everything but LF otherwise *)
+Definition any_ok (dotall : bool) (x : N) : bool := dotall || not_nl x.
+
 (* `Regex::is_match` of an anchored regex = the whole haystack is in the language.
-   Structural recursion on the regex; a starred atom tries every split point. *)
-Fixpoint rmatch (r : regex) (s : list N) {struct r} : bool :=
+   Structural recursion on the atoms; a starred atom tries every split point. *)
+Fixpoint amatch (dotall : bool) (r : list atom) (s : list N) {struct r} : bool :=
   match r with
   | [] => match s with [] => true | _ :: _ => false end
-  | ALit c :: r' => match s with x :: s' => (x =? c) && rmatch r' s' | [] => false end
-  | AAny :: r' => match s with x :: s' => not_nl x && rmatch r' s' | [] => false end
-  | AAnyStar :: r' => star_by not_nl (rmatch r') s
-  | ASegStar :: r' => star_by not_slash (rmatch r') s
+  | ALit c :: r' => match s with x :: s' => (x =? c) && amatch dotall r' s' | [] => false end
+  | AAny :: r' => match s with x :: s' => any_ok dotall x && amatch dotall r' s' | [] => false end
+  | AAnyStar :: r' => star_by (any_ok dotall) (amatch dotall r') s
+  | ASegStar :: r' => star_by not_slash (amatch dotall r') s
   end.
+
+Definition rmatch (r : regex) (s : list N) : bool := amatch (fst r) (snd r) s.
 
 (* outcome of `Regex::new(text)` followed by `is_match(s)`; None = the text is outside the
    modelled fragment *)
